@@ -41,3 +41,18 @@ UNIT = dict(
     ],
 )
 UNIT["files"]["fblib"] = FB + "lib.rs"
+CB = "crates/tower-resilience-circuitbreaker/src/"
+UNIT["files"]["cbconfig"] = CB + "config.rs"
+UNIT["files"]["cblayer"] = CB + "layer.rs"
+UNIT["serves"] = ["C04", "C06", "C17"]
+def cbsetter():
+    return dict(file="cbconfig", rules=[("sub", "R16-mut-self", r"\bself\b", "self_", None), ("inject", None, "start", "let mut self_ = self;")])
+for _n in ["failure_rate_threshold", "sliding_window_type", "sliding_window_size", "sliding_window_duration", "wait_duration_in_open", "permitted_calls_in_half_open",
+           "minimum_number_of_calls", "slow_call_duration_threshold", "slow_call_rate_threshold"]:
+    UNIT["fns"]["CircuitBreakerConfigBuilder::" + _n] = cbsetter()
+UNIT["fns"]["CircuitBreakerConfigBuilder::build"] = dict(file="cbconfig", rules=[
+    ("sub", "R9-paths", r"crate::layer::CircuitBreakerLayer", "CircuitBreakerLayer", -1),
+    ("sub", "panic", r"panic!\(\"[^\"]*\"\);", "assert(false);", 1),
+])
+UNIT["fns"]["CircuitBreakerLayer::new"] = dict(file="cblayer", rules=[("sub", "R10-into-arc", r"config\.into\(\)", "Arc::new(config)", 1)], skip_sig_check=False)
+UNIT["types"] += [("struct", "CircuitBreakerConfigBuilder", "cbconfig"), ("struct", "CircuitBreakerConfig", "cbconfig"), ("enum", "SlidingWindowType", "cbconfig")]
